@@ -904,6 +904,76 @@ def r7_pageable_entities_get_pages(ctx, rep):
                     f"Project.correlate does not gather `{l}` of {attr} into a project list that Documentation turns into "
                     f"pages (CONTAINERS keys: {sorted(cont)}; units iterated: {units_txt}): the links dangle"),
                    py.nloc(gather[0]) if gather else py.nloc(fn))
+    # child entities that always have their own page (first isinstance tuple of get_dir): gathered from every owner
+    always = [[e.id for e in t.args[1].elts if isinstance(e, ast.Name)] for t in tuples
+              if ast.unparse(t.args[0]) == "self" and t is not nested[0]]
+    always = always[0] if always else []
+    child_lists = sorted(l for l, c in c05.LIST_ELEM.items() if c in always)
+    if not child_lists:
+        raise AnalysisError("get_dir: no child list of an always-paged class (namelists) found")
+    unit_iter = {"FortranModule": "modules", "FortranSubmodule": "submodules", "FortranProgram": "programs",
+                 "FortranFunction": "functions", "FortranSubroutine": "subroutines", "FortranBlockData": "blockdata"}
+    ROUTINE_CLASSES = ["FortranFunction", "FortranSubroutine", "FortranModuleProcedureImplementation"]
+    iter_class = {v: k for k, v in unit_iter.items()}
+    for l in child_lists:
+        owners = [c for c in py.classes if c.startswith("Fortran") and c not in ("FortranBase", "FortranContainer", "FortranCodeUnit", "FortranProcedure", "FortranSourceFile")
+                  and l in all_self_attrs(py, c)]
+        if not owners:
+            raise AnalysisError(f"no owner class for {l}")
+        covered: Dict[str, str] = {}
+        nregs = 0
+        where = None
+        for host in (py.func("Project._fortran_file"), fn):
+            loopvar: Dict[str, str] = {}
+            for loop in ast.walk(host):
+                if isinstance(loop, ast.For) and isinstance(loop.target, ast.Name):
+                    loopvar[loop.target.id] = ast.unparse(loop.iter)
+
+            def classes_of(expr: ast.AST) -> List[str]:
+                """classes an expression handed to the registration can denote"""
+                t = ast.unparse(expr)
+                it = loopvar.get(t, "")
+                out = []
+                for attr in re.findall(r"\b(?:new_file|sfile|self)\.(\w+)\b", it):
+                    if attr in iter_class:
+                        out.append(iter_class[attr])
+                if re.search(r"\.routines\b", it):
+                    out += ROUTINE_CLASSES
+                return out
+
+            for c in py.walk_calls(host):
+                if call_name(c) not in (f"self.{l}.extend", f"self.{l}.append") or not c.args:
+                    continue
+                nregs += 1
+                where = where or c
+                h = py.enclosing_function(c)
+                src = c.args[0]
+                # what is read: <x>.namelists or getattr(<x>, 'namelists', ...)
+                m = re.match(rf"getattr\((\w+), '{l}'|(\w+)\.{l}\b", ast.unparse(src))
+                if not m:
+                    continue
+                x = m.group(1) or m.group(2)
+                if h is host:
+                    for k in classes_of(ast.Name(id=x)):
+                        covered.setdefault(k, loopvar.get(x, ""))
+                    continue
+                # registration inside a local helper h(x): look at its call sites
+                recurse = any(call_name(k) == h.name for k in py.walk_calls(h)) and ".routines" in ast.unparse(h)
+                for k in py.walk_calls(host):
+                    if call_name(k) == h.name and k.args and not any(y is k for y in ast.walk(h)):
+                        for cl in classes_of(k.args[0]):
+                            covered.setdefault(cl, loopvar.get(ast.unparse(k.args[0]), ""))
+                if recurse and covered:
+                    for cl in ROUTINE_CLASSES:
+                        covered.setdefault(cl, "recursion into .routines")
+        for o in sorted(owners):
+            ok = l in epm and o in covered
+            rep.ob(f"{o}.{l} gathered into a paged project list", ok,
+                   f"registered (iterating {covered.get(o)})" if ok else
+                   f"members of {o}.{l} link to their own page (get_dir() is unconditional for {c05.LIST_ELEM[l]}) but neither "
+                   f"Project._fortran_file nor Project.correlate registers the {l} of a {o} into project.{l} (registered for: "
+                   f"{sorted(covered)}): the page is never written and the links dangle",
+                   py.nloc(where) if where is not None else py.nloc(fn))
     # top-level procedures and units are registered at parse time
     ff = ast.unparse(py.func("Project._fortran_file"))
     for lst in ("modules", "submodules", "procedures", "programs", "blockdata", "files"):
